@@ -94,7 +94,7 @@ def run_generated(prop, seed, run, tier, known=None, fault_plan=None):
         for ev in g2.initial_events():
             ev2.append(ev)
             b2.step(ev)
-        for _ in range(rng.randint(3, 8)):
+        for _ in range(rng.randint(4, 12)):
             ev = g2.next_event()
             ev2.append(ev)
             b2.step(ev)
